@@ -96,11 +96,17 @@ theorem ros_blanks (n : Nat) (t : Tok) (r : List Tok) (h : t ≠ .sp) :
   | succ n ih => simpa [blanks, List.replicate_succ, readOptionalSpaces] using ih
 
 
-theorem isBare_iff (ts : List Tok) (h : isBare ts = true) : ∃ c, ts = [.ch c] := by
+theorem isBare_iff (ts : List Tok) (h : isBare ts = true) :
+    ∃ t, ts = [t] ∧ t ≠ .sp ∧ isBg t = false := by
   unfold isBare at h
   split at h
-  · exact ⟨_, rfl⟩
+  · exact ⟨_, rfl, by simp, rfl⟩
+  · exact ⟨_, rfl, by simp, rfl⟩
   · simp at h
+
+/-- `readToken` on a single token that is not an opening brace takes that token only -/
+theorem readToken_single (t : Tok) (r : List Tok) (h : isBg t = false) : readToken (t :: r) = (some [t], r) := by
+  simp [readToken, h]
 
 theorem delimit_present (a : ArgCall) (ts X : List Tok) (hw : wfArg a = true) (hc : a.content = some ts) :
     delimit a.spec (readOptionalSpaces (renderArg a ++ X)) = (some ts, X) := by
@@ -110,10 +116,10 @@ theorem delimit_present (a : ArgCall) (ts X : List Tok) (hw : wfArg a = true) (h
   | tok =>
     simp only [wfArg, beq_iff_eq] at hw
     by_cases hb : isBare ts = true
-    · obtain ⟨c, rfl⟩ := isBare_iff ts hb
+    · obtain ⟨t, rfl, hsp, hbg⟩ := isBare_iff ts hb
       simp only [renderArg, hb, if_true, List.append_assoc, List.cons_append, List.nil_append]
-      rw [ros_blanks _ _ _ (by simp)]
-      simp [delimit, readToken_char]
+      rw [ros_blanks _ _ _ hsp]
+      simp [delimit, readToken_single t X hbg]
     · simp only [renderArg, hb, Bool.false_eq_true, if_false, List.append_assoc, List.cons_append, List.nil_append]
       rw [ros_blanks _ _ _ (by simp)]
       simp only [delimit]
